@@ -424,6 +424,24 @@ def run_catalogue(prop=None, jobs=None, ids=None):
     return res
 
 
+def _cross_job(args):
+    v, p = args
+    r = run_variant(dict(v, prop=p, expect="undecided"))       # exit 0 or 2, never a VIOLATION line
+    r["origin"] = v["prop"]
+    return r
+
+
+def run_cross(prop, jobs=None):
+    """every *silent* single-edit variant written for another property is a behaviour-preserving rewrite for this one too
+    (unless it says otherwise: `breaks=(...)`): none may make this property's check report a violation"""
+    todo = [(v, prop) for v in VARIANTS if v["expect"] == "silent" and v["prop"] != prop and prop not in v.get("breaks", ())
+            and not any(e[0].startswith("@") for e in v["edits"])]
+    jobs = jobs or min(16, os.cpu_count() or 4)
+    with ProcessPoolExecutor(max_workers=jobs) as ex:
+        res = list(ex.map(_cross_job, todo, chunksize=8))
+    return res
+
+
 def summarise(res):
     out = {"applied": sum(1 for r in res if r["outcome"] != "skipped"),
            "detected": sum(1 for r in res if r["expect"] == "fire" and r["outcome"] == "ok"),
